@@ -13,19 +13,53 @@ def emitted_frames(runner, e):
     return TS.decode_stream(sysm.emitted(e))[0]
 
 
-def adversarial_run(chk, rng):
+def directed_frames(hdl):
+    ''' State-derived alphabet: every message type about every class of transfer id the victim
+    knows (unknown, queued, in flight, awaiting ack) with every flag combination and the lengths
+    that matter (0, what was sent so far, the total, one less, the maximum). '''
+    import struct
+    ids = [0, 99]
+    totals = {}
+    for (bid, item) in list(hdl._tx_map.items()):
+        ids.append(int(bid))
+        totals[int(bid)] = len(item.file.getvalue())
+    frames = []
+    for xid in ids:
+        lens = [0, 1, 2 ** 64 - 1]
+        if xid in totals:
+            lens += [totals[xid], max(totals[xid] - 1, 0), int(hdl._tx_length or 0)]
+        for flags in (0, 1, 2, 3):
+            for length in sorted(set(lens)):
+                frames.append(bytes([2, flags]) + struct.pack('!QQ', xid, length))
+        for reason in (0, 3):
+            frames.append(bytes([3, reason]) + struct.pack('!Q', xid))
+    for xid in (0, 5):
+        for flags in (0, 1, 2, 3):
+            data = b'zz'
+            ext = (struct.pack('!I', 13) + bytes([0, 0, 1, 0, 8]) + struct.pack('!Q', len(data))) if flags & 2 else b''
+            frames.append(bytes([1, flags]) + struct.pack('!Q', xid) + ext + struct.pack('!Q', len(data)) + data)
+    frames += [bytes([4]), bytes([5, 0, 0]), bytes([5, 1, 3]), bytes([6, 1, 3]), b'dtn!\x04\x00', bytes([9, 0])]
+    return frames
+
+
+def adversarial_run(chk, rng, phase=None, forced=None, victim=None, inflight=None):
     ''' Like TS.gen_adversarial but checks the response to every injected frame
-    against an independent expectation derived from the property text. '''
+    against an independent expectation derived from the property text.
+    ``forced``: index into the state-derived alphabet (one frame injected);
+    ``inflight``: (bundle length, segment size, segments to put out first). '''
     (ca, cb) = TC.gen_config(rng)
     for conf in (ca, cb):
         conf['keepalive_time'] = 0
         conf['idle_time'] = 0
-    runner = TC.Runner(cfg_a=ca, cfg_b=cb)
-    victim = rng.choice('AB')
+    victim = victim or rng.choice('AB')
     peer = 'B' if victim == 'A' else 'A'
+    if inflight is not None:
+        (ca if victim == 'A' else cb)['segment_size_tx_initial'] = inflight[1]
+        (cb if victim == 'A' else ca)['segment_size_mru'] = max(inflight[1], 64)
+    runner = TC.Runner(cfg_a=ca, cfg_b=cb)
     runner.apply(('start', 'A'))
     runner.apply(('start', 'B'))
-    phase = rng.choice(['contact', 'established', 'established', 'established', 'terminating'])
+    phase = phase or rng.choice(['contact', 'established', 'established', 'established', 'terminating'])
     if phase == 'contact':
         # the victim has exchanged contact headers but not SESS_INIT
         if victim == 'B':
@@ -39,7 +73,16 @@ def adversarial_run(chk, rng):
     else:
         TC.drain(runner)
     seg = TS.eff_seg(ca if victim == 'A' else cb, cb if victim == 'A' else ca)
-    nsend = rng.randrange(0, 3)
+    nsend = rng.randrange(0, 3) if inflight is None else 0
+    if inflight is not None:
+        # one transfer in flight (some segments out, END not yet), one awaiting its final ack, one still queued
+        runner.apply(('send', victim, ('lit', b'k' * 3)))
+        for _ in range(3):
+            runner.apply(('pq', victim))
+        runner.apply(('send', victim, ('gen', 7, inflight[0])))
+        for _ in range(inflight[2]):
+            runner.apply(('pq', victim))
+        runner.apply(('send', victim, ('lit', b'queued')))
     for _ in range(nsend):
         runner.apply(('send', victim, TS.bounded_data(rng, seg)))
         for _ in range(rng.randrange(0, 4)):
@@ -54,11 +97,16 @@ def adversarial_run(chk, rng):
     rx_acc = b''
     expect_delivered = []
     stalled = False
-    for _ in range(rng.randrange(1, 8)):
+    for _ in range(rng.randrange(1, 8) if forced is None else 1):
         if runner.is_closed(victim):
             break
         (hint_ids, hint_lens) = TS.victim_hints(runner, victim)
-        if rng.random() < 0.7:
+        if forced is not None:
+            alphabet = directed_frames(hdl)
+            if forced >= len(alphabet):
+                break
+            frame = alphabet[forced]
+        elif rng.random() < 0.7:
             frame = TS.well_formed_frame(rng, ids=hint_ids, lengths=hint_lens)
         else:
             frame = TS.well_formed_frame(rng)
@@ -175,9 +223,24 @@ def adversarial_run(chk, rng):
 
 def build(chk):
     out = []
-    nruns = 40 if chk.quick() else 600
+    nruns = 24 if chk.quick() else 600
     for _ in range(nruns):
         out.append(adversarial_run(chk, chk.rng))
+    # directed: every frame of the state-derived alphabet, one per run, in each session state
+    import random
+    states = [('contact', None), ('established', None), ('established', (10, 3, 2)), ('terminating', (10, 3, 2))]
+    for (sidx, (phase, inflight)) in enumerate(states):
+        for victim in ('A', 'B'):
+            for fidx in range(200):
+                if chk.quick() and (fidx + sidx + (victim == 'B')) % 3 != 0 and not (inflight and fidx < 60):
+                    continue  # quick: every third frame, but the whole ack/refuse block for the in-flight states
+                res = adversarial_run(chk, random.Random(1000 * sidx + fidx), phase=phase, forced=fidx, victim=victim,
+                                      inflight=inflight)
+                if not res[2]:
+                    break  # alphabet exhausted
+                res[0].meta['directed'] = True
+                res[0].meta['no_model'] = (fidx % 4 != 0)  # the model is evaluated on a quarter of the directed runs
+                out.append(res)
     # the recorded known finding: an unknown message type
     import random
     fixed = random.Random(1709)
